@@ -73,44 +73,6 @@ theorem DeepL.mono {lo hi lo' hi' : Nat} (h1 : lo' ≤ lo) (h2 : hi ≤ hi') :
       simp only [DeepL] at h ⊢
       exact ⟨h.1.mono h1 h2, Deep.mono h1 h2 _ _ h.2.1, ih xs h.2.2⟩
 
-/-- a source tree is deep-related to itself -/
-theorem Deep.src (lo hi : Nat) : ∀ n : Node, srcOk n = true → Deep lo hi n n := by
-  intro n
-  induction n using Node.rec (motive_2 := fun l => (∀ k ∈ l, srcOk k = true) → DeepL lo hi l l) with
-  | nil => simp [DeepL]
-  | cons x xs hx hxs =>
-    rename_i h
-    simp only [DeepL]
-    exact ⟨ErAll.src (h x (by simp)) lo hi, hx (h x (by simp)), hxs (fun k hk => h k (by simp [hk]))⟩
-  | member o p sp ho hp =>
-    intro h
-    have hk := srcOk_kids h
-    simp only [Deep]
-    exact ⟨trivial, ErAll.src (hk o (by simp [kids])) lo hi, ErAll.src (hk p (by simp [kids])) lo hi,
-      ho (hk o (by simp [kids])), hp (hk p (by simp [kids])), by simp⟩
-  | paren i sp hi' =>
-    intro h
-    have hk := srcOk_kids h
-    simp only [Deep]
-    have h0 := srcOk_self h
-    simp only [srcNode, Bool.and_eq_true, Bool.not_eq_true'] at h0
-    intro _
-    exact ⟨i, rfl, by have := h0.2; simpa [bne] using this, ErAll.src (hk i (by simp [kids])) lo hi, hi' (hk i (by simp [kids]))⟩
-  | other k sp ns vs hvs =>
-    intro h
-    simp only [Deep]
-    exact ⟨trivial, trivial, trivial, hvs (srcOk_kids h)⟩
-  | array es sp hes =>
-    intro h
-    simp only [Deep]
-    exact ⟨trivial, hes (srcOk_kids h)⟩
-  | arg s e he =>
-    intro h
-    have hk := srcOk_kids h
-    simp only [Deep]
-    exact ⟨trivial, ErAll.src (hk e (by simp [kids])) lo hi, he (hk e (by simp [kids]))⟩
-  | _ => intro _; simp only [Deep]
-
 theorem DeepL.forall2 {lo hi : Nat} : ∀ {l' l : List Node}, DeepL lo hi l' l →
     Forall2 (fun a' a => ErAll lo hi a' a ∧ Deep lo hi a' a) l' l := by
   intro l'
